@@ -43,7 +43,11 @@ _psSodium_crypto_sign_ed25519_verify_detached(const unsigned char *sig,
         return -1;
     }
 #else
-    if (sig[63] & 224) {
+    /* Even in compatibility mode S must be a canonical scalar, 0 <= S < L
+       (RFC 8032, 5.1.7 step 1). Checking only the top three bits accepts
+       S + L for almost every S, i.e. a second signature for every signed
+       message. */
+    if ((sig[63] & 224) || psSodium_sc25519_is_canonical(sig + 32) == 0) {
         return -1;
     }
 #endif
